@@ -30,6 +30,11 @@ func runC10(c *core.Ctx) {
 			runC10Owner(c)
 			return
 		}
+		if c.T.Bias(1, 5, "part3-queued") {
+			c.Knob("part", 3)
+			runC10Queued(c)
+			return
+		}
 		if c.T.Bias(1, 3, "part3") {
 			c.Knob("part", 3)
 			runC10OneShot(c)
